@@ -1,8 +1,8 @@
 """registry entry of C19 (Lean files carrying the obligations, correspondence script, labels)"""
 from reg._common import COMMON_ASSUME
 
-ENTRY = {'lean_files': ['Tables/C19.lean', 'Props/C19.lean'],
- 'lemma_files': ['Lemmas/Shift.lean',
+ENTRY = {'lean_files': ['Tables/C19.lean', 'Props/C19.lean', 'Props/C19More.lean'],
+ 'lemma_files': ['Lemmas/Resultant.lean', 'Lemmas/Subdivide.lean', 'Lemmas/Deriv.lean', 'Lemmas/Shift.lean',
                  'Lemmas/Bridge.lean',
                  'Lemmas/VS.lean',
                  'Lemmas/Elevate.lean',
@@ -35,19 +35,20 @@ ENTRY = {'lean_files': ['Tables/C19.lean', 'Props/C19.lean'],
          'residual |p(rho)| <= eps W T(rho); n - e roots must be exactly 1; count = degree - sigma-roots dropped at -1. '
          'unit: roots_in_unit_interval filter equals the model on the same polyroots output; planted simple roots clearly '
          'inside are returned, clearly outside are not. non-trivial = non-constant input; distinct by hash of exact inputs',
- 'partial': ['implicit function proportional to the true resultant: checked by the script against exact Sylvester '
-             'resultants (every lattice net; constant -1, 1, 1 for degree 1, 2, 3), not proved in Lean (Lean: vanishing on '
-             'the curve for degree 1, 2, 3, all nets, all s, any field; the executable determinant is Matrix.det)',
-             'power_basis_interpolation*: proved that each scheme returns c x the coefficients of any polynomial with '
-             'deg1*deg2+1 coefficients that agrees with the sampled function at the sample parameters (hand-inverted pairs '
-             'directly; polyfit pairs under the hypotheses fit = interpolation and V^-1 V = I, the latter decided in '
-             'Tables/C19 for the extracted Chebyshev nodes); that f1 o B2 IS such a polynomial is checked by the script only',
-             'companion_charpoly_partial: characteristic polynomial of the companion matrix = q for sizes 1..4; for every '
-             'size companion_eigenvalues proves det(lam I - companion) = 0 <-> q(lam) = 0 (eigenvalues = roots, without '
-             'multiplicities)',
-             'bezier_roots returns all roots: the eigenvalue solver is external; Lean proves the reduction '
-             '(roots_are_companion_eigenvalues, sigma: effective degree = degree - multiplicity of the root 1); the script '
-             'checks planted roots with the stated allowance',
+ 'partial': ['implicit function = c x the Sylvester resultant (Mathlib Polynomial.resultant) of X(s)-x and Y(s)-y for degree 1, 2, 3, every net, '
+             'any field, with c = -1, 1, 1 (C19.implicit_is_resultant); zero set: evaluate = 0 <-> common root in every algebraically '
+             'closed extension, provided the s^d coefficient of X or Y is non-zero; identically zero <-> the net is degree elevated '
+             '(implicit_identically_zero_iff); no statement relates an elevated net to the implicit function of its reduced curve (the '
+             'code reduces first; checked by the script)',
+             'f1 o B2 is a polynomial of degree <= d1 d2 for d1 in 1..3 and every d2 (composition_degree), hence power_basis_exact: '
+             'the hand-inverted pairs return exactly c x the coefficients of f1 o B2 for every net; polyfit pairs (2-3, 2-4, 3-3) under '
+             'the hypotheses fit = interpolation and V^-1 V = I (the latter decided in Tables/C19 for the extracted Chebyshev nodes) - '
+             'numpy polyfit is external',
+             'companion_charpoly: characteristic polynomial of the companion matrix = q for EVERY size (induction, Laplace expansion)',
+             'bezier_roots_complete (exact arithmetic over any field, all degrees): s is a root of the Bernstein polynomial <-> s = 1 with '
+             'degree drop, or s = sigma/(1+sigma) for an eigenvalue sigma of the companion; multiplicity of the root 1 = degree drop; '
+             'the eigenvalue solver (LAPACK) is external and the transfer to complex eigenvalue pairs is not stated; the script checks '
+             'planted roots with the stated allowance',
              'bezier_value_check (needs SciPy) is skipped in /venv'],
  'trusted_base': ['modelled not verified: every function of hazmat/algebraic_intersection.py (Model/Algebraic.lean); '
                   'numpy.linalg.det / eigvals / matrix_rank, numpy.polynomial polyfit / polyroots, np.sqrt are external '
